@@ -156,6 +156,61 @@ def _timeseries_case(has_pattern):
     return Case("pattern=%s" % has_pattern, build, crosscheck=False)
 
 
+# a time series over its life: built by its constructor, evaluated, given another pattern and another base value, evaluated again
+
+PM2 = fn("pattern_mult_of", I, I, R)
+
+
+def _ts_history_models():
+    m = library.build_models()
+
+    def pattern_at(interp, args, kw):
+        self_, t = args[0], args[1]
+        return SV(PM2(z3.IntVal(self_.fields["_id"]), library.as_int(t)), "real")
+    m.register(Pattern.at, pattern_at, verified_by="wntr.network.elements:Pattern.at#multiplier_is_pattern_value_at_time")
+    return m
+
+
+def _make_and_use(reg, base, p1, p2, base2, t):
+    ts = TimeSeries(reg, base, p1, None)
+    v1 = ts.at(t)
+    ts.pattern_name = p2
+    v2 = ts.at(t)
+    ts.base_value = base2
+    v3 = ts.at(t)
+    ts.pattern_name = None
+    v4 = ts.at(t)
+    return v1, v2, v3, v4
+
+
+def _timeseries_history_case():
+    def build(cx):
+        from wntr.network.base import Registry
+
+        class Reg(PatReg, Registry):
+            def __init__(self, table):
+                PatReg.__init__(self, table)
+        t, b, b2 = cx.int("t"), cx.real("base"), cx.real("new_base")
+        cx.assume(cx.t(t) >= 0)
+        n1, n2 = cx.name("pattern1"), cx.name("pattern2")
+        cx.assume(cx.t(n1) != name_const(""), cx.t(n2) != name_const(""), cx.t(n1) != cx.t(n2))
+        pats = [cx.obj(Pattern, name=nm, _id=i + 1, _multipliers=[1.0], _time_options=None, wrap=True) for i, nm in enumerate((n1, n2))]
+        reg = Reg([(n1, pats[0]), (n2, pats[1])])
+        cx.target(_make_and_use, reg, b, n1, n2, b2, t)
+
+        def post(out):
+            if not out.returned:
+                return []
+            v1, v2, v3, v4 = [library.as_real(v) for v in out.value]
+            T = cx.t(t)
+            return [("first_value_follows_the_pattern_given_at_construction", v1 == cx.t(b) * PM2(1, T)),
+                    ("after_the_pattern_name_is_changed_the_value_follows_the_new_pattern", v2 == cx.t(b) * PM2(2, T)),
+                    ("after_the_base_value_is_changed_the_value_uses_the_new_base", v3 == cx.t(b2) * PM2(2, T)),
+                    ("after_the_pattern_is_removed_the_value_is_the_base_value", v4 == cx.t(b2))]
+        cx.ensure(post)
+    return Case("constructed,evaluated,pattern_changed,base_changed,pattern_removed", build, crosscheck=False)
+
+
 # ------------------------------------------------------------------------------------------------
 # Demands.at  (callee contract of TimeSeries.at: returns TSAT(i, t))
 
@@ -264,6 +319,7 @@ def _expected_demand_case(kind, existing):
         field = "expected_demand" if kind == "param" else "demand"
         from contracts.params import leafmap
         m = cx.obj(ModelStub, **({field: leafmap(field, True)} if existing else {}))
+        before = cx.interp.getitem(m.fields[field], n) if existing else None
         if kind == "param":
             cx.target(param.expected_demand_param, m, wn)
         else:
@@ -278,7 +334,8 @@ def _expected_demand_case(kind, existing):
             want = DEMAT(n.t, cx.t(st) + cx.t(ps), cx.t(dm))
             ok_frame = all((not isinstance(o, SymMap)) or (o is mp and k.t.eq(n.t)) for (o, k, v) in cx.path.writes)
             return [("requested_demand_is_demands_at_simtime_plus_pattern_start_times_multiplier", library.as_real(val) == want),
-                    ("frame_only_own_entry", ok_frame)]
+                    ("frame_only_own_entry", ok_frame)] + \
+                ([("an_existing_parameter_is_updated_in_place_the_object_the_rows_refer_to_stays", leaf is before)] if existing and kind == "param" else [])
         cx.ensure(post)
     return Case("%s,existing=%s" % (kind, existing), build, crosscheck=False)
 
@@ -320,6 +377,7 @@ def _source_head_case(existing):
         wn.sim_time = st
         wn.nodes.extend([(tn, tank), (rn, res)])
         m = cx.obj(ModelStub, **({"source_head": leafmap("source_head", True)} if existing else {}))
+        before = {k: cx.interp.getitem(m.fields["source_head"], k) for k in (tn, rn)} if existing else {}
         cx.target(param.source_head_param, m, wn)
 
         def post(out):
@@ -331,7 +389,8 @@ def _source_head_case(existing):
                 leaf = cx.interp.getitem(mp, k)
                 return library.as_real(leaf.value if isinstance(leaf, Leaf) else leaf)
             return [("tank_source_head_is_its_current_head", val(tn) == cx.t(th)),
-                    ("reservoir_source_head_is_its_head_pattern_at_simulation_time_plus_pattern_start", val(rn) == HEADAT(rn.t, cx.t(st) + cx.t(ps)))]
+                    ("reservoir_source_head_is_its_head_pattern_at_simulation_time_plus_pattern_start", val(rn) == HEADAT(rn.t, cx.t(st) + cx.t(ps)))] + \
+                ([("existing_parameters_are_updated_in_place_the_objects_the_rows_refer_to_stay", all(cx.interp.getitem(mp, k) is before[k] for k in (tn, rn)))] if existing else [])
         cx.ensure(post)
     return Case("existing=%s" % existing, build, crosscheck=False)
 
@@ -341,6 +400,8 @@ CONTRACTS = [
              models=amlmodel.build_models, trusted=["aml.Param(v) is a box holding v (DESIGN 2.5)", "TimeSeries.at (this file)"]),
     Contract("wntr.network.elements:Pattern.at", P, _pattern_cases + [_pattern_no_timeopts_case()],
              note="times and the pattern timestep are integers (seconds)"),
+    Contract("wntr.network.elements:TimeSeries.__init__/at/pattern_name/base_value over its life", P + ["C11"], [_timeseries_history_case()], models=_ts_history_models,
+             interpret_always=(_make_and_use, TimeSeries)),
     Contract("wntr.network.elements:TimeSeries.at", P, [_timeseries_case(True), _timeseries_case(False)], models=_ts_models,
              trusted=["PatternRegistry lookup returns the registered pattern (C14)"]),
     Contract("wntr.network.elements:Demands.at", P, [_demands_case(False), _demands_case(True)], models=_dem_models,
